@@ -5,6 +5,8 @@ C20 driver.  Case lines (all byte strings hex, `-` = empty):
 
   const <what>                                                        constants read back from the code
   cfd <secret> <addr> <uuid> <name> <props> <proto> <key> <requested> one CreateForwardingData call
+  alias <cfd-args A> <cfd-args B>                                     A's returned slice, read after B was built
+  conc <round> <idx> <cfd-args>                                       own slice, read after concurrent builds
   reset <mode> <secret> <addr> <uuid> <name> <props> <proto> <key>    new backend login handler
   pm <channel> <id> <data> <writeOk> | ls | enc | dc | sc <ok> | oth  one HandlePacket call
 
@@ -59,6 +61,25 @@ def judgePayload (secret address : Bytes) (p : Player) (requested : Int) (implHe
       else if r.version ≠ want.version then "viol:version-negotiation"
       else "viol:payload-fields"
 
+/-- A payload that the caller still holds must be exactly what `CreateForwardingData` returned for ITS input:
+    model output = the model's payload for that input; verdict = the held bytes still authenticate and parse
+    to that input's fields (inside the parser's domain), else byte equality with the model's payload. -/
+def heldOut (secret addr uuid name props proto key req : String) (impl : String) : String × String :=
+  match parseHex secret, parseHex addr, parsePlayer uuid name props proto key, req.toInt? with
+  | some secret, some addr, some p, some req =>
+    let out := match createForwardingData secret addr p req with
+      | .ok d => "ok " ++ toHex d
+      | .error _ => "err"
+    let verdict :=
+      if impl.startsWith "ok " then
+        (if wfInputB addr p then
+          (if judgePayload secret addr p req (impl.drop 3).toString = "ok" then "ok"
+           else "viol:payload-mutated-after-return")
+         else if impl = out then "ok" else "viol:payload-mutated-after-return")
+      else "viol:payload-mutated-after-return"
+    (out, verdict)
+  | _, _, _, _ => ("bad-op", "-")
+
 structure DS where
   cfg : Option Cfg := none
   st : HState := {}
@@ -111,6 +132,13 @@ def step' (ds : DS) (c : Case) : DS × String × String :=
         else if wfInputB addr p then "viol:create-failed" else "-"
       (ds, out, verdict)
     | _, _, _, _ => (ds, "bad-op", "-")
+  -- the payload for input A, looked at again after other payloads (input B / other goroutines) were built
+  | "alias", secret :: addr :: uuid :: name :: props :: proto :: key :: req :: _otherInput =>
+    (ds, (heldOut secret addr uuid name props proto key req c.impl).1,
+         (heldOut secret addr uuid name props proto key req c.impl).2)
+  | "conc", _round :: _idx :: secret :: addr :: uuid :: name :: props :: proto :: key :: req :: _ =>
+    (ds, (heldOut secret addr uuid name props proto key req c.impl).1,
+         (heldOut secret addr uuid name props proto key req c.impl).2)
   | "reset", [mode, secret, addr, uuid, name, props, proto, key] =>
     match parseMode mode, parseHex secret, parseHex addr, parsePlayer uuid name props proto key with
     | some m, some secret, some addr, some p => ({ cfg := some ⟨m, secret, addr, p⟩ }, "-", "-")
